@@ -58,6 +58,7 @@ func (u *Unit) callNamesInBlocks(fn *ssa.Function, blocks map[*ssa.BasicBlock]bo
 					out["WaitGroup.Wait"] = true
 				case "sync/atomic.CompareAndSwapUint32":
 					out["atomic.CAS"] = true
+					out["atomic.CAS.ok"] = true
 				case "(reflect.Value).Call":
 					out["reflect.Call"] = true
 				case "(*sync.RWMutex).Lock", "(*sync.Mutex).Lock", "(*sync.RWMutex).RLock":
@@ -92,6 +93,7 @@ func (u *Unit) loopEnter(st *State, lp *Loop) {
 	first := lp.header.Instrs[0]
 	for _, c := range inv {
 		env := u.newEnv(st)
+		env.pre = st.snapshot()
 		u.addOblig(st, tag+".inv."+labelOr(c, "inv")+".entry", c.Text, clauseProps(c, fs), u.evalBool(env, c.Expr), first, "loop invariant holds on entry: "+c.Text)
 	}
 	eff := u.effectsOfBlocks(lp.fn, lp.blocks, map[*ssa.Function]bool{})
@@ -143,8 +145,12 @@ func (u *Unit) loopEnter(st *State, lp *Loop) {
 		}
 	}
 	// heaps
+	pre := st.snapshot()
 	if eff.all {
-		u.havocAll(st, tag)
+		for _, n := range sortedKeys(eff.heaps) {
+			u.noteHeap(n, eff.heaps[n])
+		}
+		u.havocAllExcept(st, tag, eff.heaps)
 	} else {
 		var names []string
 		for _, n := range sortedKeys(eff.heaps) {
@@ -152,7 +158,7 @@ func (u *Unit) loopEnter(st *State, lp *Loop) {
 			names = append(names, n)
 		}
 		if len(names) > 0 {
-			u.havocNames(st, names, tag)
+			u.havocNamesFrame(st, names, tag, false)
 		}
 	}
 	// context oracle: monotone across iterations
@@ -195,9 +201,10 @@ func (u *Unit) loopEnter(st *State, lp *Loop) {
 	}
 	for _, c := range inv {
 		env := u.newEnv(st)
+		env.pre = pre
 		st.assume(u.evalBool(env, c.Expr))
 	}
-	lc := &LoopCtx{loop: lp, head: st.snapshot()}
+	lc := &LoopCtx{loop: lp, head: st.snapshot(), pre: pre}
 	lc.headTokens = map[string]int{}
 	for k, v := range st.tokens {
 		lc.headTokens[k] = v
@@ -221,6 +228,7 @@ func (u *Unit) loopBackEdge(st *State, lp *Loop) {
 	first := lp.header.Instrs[0]
 	env := u.newEnv(st)
 	env.head = lc.head
+	env.pre = lc.pre
 	for _, c := range inv {
 		u.addOblig(st, tag+".inv."+labelOr(c, "inv")+".preserve", c.Text, clauseProps(c, fs), u.evalBool(env, c.Expr), first, "loop invariant preserved by the body: "+c.Text)
 	}
